@@ -74,8 +74,19 @@ func (s *KernelSpec) source() (string, error) {
 		return "", err
 	}
 	src := string(raw)
-	for k, v := range s.Subst {
-		src = strings.Replace(src, k, v, -1)
+	// longest key first: one key may contain another (RDEPTH / DEPTH)
+	var keys []string
+	for k := range s.Subst {
+		keys = append(keys, k)
+	}
+	sort.Slice(keys, func(i, j int) bool {
+		if len(keys[i]) != len(keys[j]) {
+			return len(keys[i]) > len(keys[j])
+		}
+		return keys[i] < keys[j]
+	})
+	for _, k := range keys {
+		src = strings.Replace(src, k, s.Subst[k], -1)
 	}
 	return src, nil
 }
@@ -226,6 +237,7 @@ func RunKernel(spec *KernelSpec, solver string, timeoutMs int) (res *KernelResul
 	obs = append(obs, ob{"harness runs to completion on some input (reachability)", k.Completed(), true})
 	obs = append(obs, ob{"unwinding / pool bounds", k.FlagTerm("unwind"), false})
 	obs = append(obs, ob{"no runtime fault (nil dereference, index out of range, failed type assertion)", k.FlagTerm("fault"), false})
+	obs = append(obs, ob{"no Go panic escapes the harness (an unrecovered panic in generated code or in a job would crash the process)", k.Crashed(), false})
 	if k.E.Plumb != nil && spec.Prop == "C12" {
 		obs = append(obs, ob{"generated plumbing relies only on the scheduler's happens-before guarantees (job-written cells read by dependents, or by the caller after a nil Wait; otherwise atomically)", k.FlagTerm("C12gen"), false})
 	}
